@@ -28,7 +28,19 @@ func (p *Program) isVar(v ssa.Value, x Var) bool {
 	if x.Cell != nil {
 		return p.isLoadOf(v, x.Cell)
 	}
-	return x.Val != nil && v == strip(x.Val)
+	if x.Val == nil {
+		return false
+	}
+	if v == strip(x.Val) {
+		return true
+	}
+	// a register variable: the value merged with whatever the variable held before
+	for _, s := range p.sources(v, provOpt{ThroughCells: true}) {
+		if s == strip(x.Val) {
+			return true
+		}
+	}
+	return false
 }
 
 func (x Var) String() string {
